@@ -1,7 +1,7 @@
 //! dump of a parsed document through ast-grep's `Node` API, as data for the Lean model
 use ast_grep_core::matcher::PatternNode;
 use ast_grep_core::meta_var::MetaVariable;
-use ast_grep_core::{Doc, Node};
+use ast_grep_core::{Doc, Language, Node};
 use serde_json::{json, Value};
 use std::collections::HashMap;
 
@@ -85,4 +85,90 @@ pub fn dump_pattern(p: &PatternNode) -> Value {
       json!(["I", kind_id, children.iter().map(dump_pattern).collect::<Vec<_>>()])
     }
   }
+}
+
+/// The tree-sitter contract the model assumes (DESIGN 5.2), checked through the public API:
+/// `parent(child_i) = n`, `next`/`prev` are the neighbours in `children()`,
+/// `child_by_field_id(f)` is the first child under field `f`, child ranges are ordered and nested.
+/// Returns a description of the first violation.
+pub fn contract_violation<D: Doc>(root: &Node<D>) -> Option<String> {
+  for n in root.dfs() {
+    let kids: Vec<Node<D>> = n.children().collect();
+    let mut cursor = n.get_ts_node().walk();
+    let mut fields: Vec<Option<u16>> = vec![];
+    if cursor.goto_first_child() {
+      loop {
+        fields.push(cursor.field_id());
+        if !cursor.goto_next_sibling() {
+          break;
+        }
+      }
+    }
+    if fields.len() != kids.len() {
+      return Some(format!("children()/cursor length differ at {:?}", n.range()));
+    }
+    // a cursor positioned by byte offset on child i walks left/right over the same children
+    for (i, c) in kids.iter().enumerate() {
+      let mut cur = n.get_ts_node().walk();
+      let landed = cur.goto_first_child_for_byte(c.range().start as u32);
+      let want = kids.iter().position(|k| k.range().end > c.range().start);
+      let got = landed.and_then(|_| kids.iter().position(|k| k.node_id() == cur.node().id()));
+      if got != want {
+        return Some(format!("goto_first_child_for_byte lands on child {got:?}, expected {want:?} at {:?}", c.range()));
+      }
+      if got == Some(i) {
+        let mut left = cur.clone();
+        let moved = left.goto_previous_sibling();
+        let lid = if moved { Some(left.node().id()) } else { None };
+        let want_l = if i == 0 { None } else { Some(kids[i - 1].node_id()) };
+        if lid != want_l {
+          return Some(format!("cursor goto_previous_sibling leaves the sibling list at {:?}", c.range()));
+        }
+        let moved = cur.goto_next_sibling();
+        let rid = if moved { Some(cur.node().id()) } else { None };
+        let want_r = kids.get(i + 1).map(|k| k.node_id());
+        if rid != want_r {
+          return Some(format!("cursor goto_next_sibling leaves the sibling list at {:?}", c.range()));
+        }
+      }
+    }
+    // no field the cursor does not report
+    let tsl = n.lang().get_ts_language();
+    for f in 1..=(tsl.field_count() as u16) {
+      if !fields.contains(&Some(f)) && n.child_by_field_id(f).is_some() {
+        return Some(format!("child_by_field_id({f}) finds a child the cursor does not label at {:?}", n.range()));
+      }
+    }
+    let r = n.range();
+    let mut last_end = r.start;
+    for (i, c) in kids.iter().enumerate() {
+      match c.parent() {
+        Some(p) if p.node_id() == n.node_id() => {}
+        _ => return Some(format!("parent(child) != node at {:?}", c.range())),
+      }
+      let nx = c.next().map(|x| x.node_id());
+      let want_nx = kids.get(i + 1).map(|x| x.node_id());
+      if nx != want_nx {
+        return Some(format!("next() is not the following child at {:?}", c.range()));
+      }
+      let pv = c.prev().map(|x| x.node_id());
+      let want_pv = if i == 0 { None } else { Some(kids[i - 1].node_id()) };
+      if pv != want_pv {
+        return Some(format!("prev() is not the preceding child at {:?}", c.range()));
+      }
+      let cr = c.range();
+      if cr.start < last_end || cr.end > r.end || cr.start > cr.end {
+        return Some(format!("child range not ordered/nested at {:?}", cr));
+      }
+      last_end = cr.end;
+      if let Some(f) = fields[i] {
+        let first = fields.iter().position(|x| *x == Some(f)).unwrap();
+        match n.child_by_field_id(f) {
+          Some(x) if x.node_id() == kids[first].node_id() => {}
+          _ => return Some(format!("child_by_field_id({f}) is not the first child under that field at {:?}", r)),
+        }
+      }
+    }
+  }
+  None
 }
